@@ -55,6 +55,51 @@ def field_closure(f, roots):
     return seen
 
 
+def _untagged_ambiguity(f, r, adt, short, tattrs, vattrs):
+    """An untagged enum is restored as the FIRST variant that accepts the data. For variants wrapping structs (unknown fields are ignored by
+    derived Deserialize) an earlier variant whose wire fields are a subset of a later one's swallows the later one: the snapshot of B comes
+    back as an A. Also: two variants (or two fields) renamed to the same wire name."""
+    words = set()
+    for a in tattrs:
+        inner = a[a.index('(') + 1:a.rindex(')')] if '(' in a else ''
+        for part in split_top(inner):
+            words.add(part.split('=')[0].split('(')[0].strip())
+    variants = adt['variants']
+    if 'untagged' in words and len(variants) > 1:
+        wire = []
+        for v in variants:
+            names = None
+            if len(v['fields']) == 1 and v['fields'][0]['tyj'].get('t') == 'adt' and v['fields'][0]['tyj'].get('def') in f.adts:
+                inner_adt = f.adts[v['fields'][0]['tyj']['def']]
+                ia = serde_attrs_of(f, inner_adt)
+                deny = bool(ia) and any('deny_unknown_fields' in x for x in ia[0])
+                if len(inner_adt['variants']) == 1 and not deny:
+                    names = set(serde_field_names(f, inner_adt).values())
+            elif len(v['fields']) > 1 or (v['fields'] and not v['fields'][0]['name'].isdigit()):
+                names = {fl['name'] for fl in v['fields']}
+            wire.append((v['name'], names))
+        for i, (va_, na) in enumerate(wire):
+            for vb_, nb in wire[i + 1:]:
+                r.inst('%s|untagged|%s<%s' % (short, va_, vb_))
+                if na is None or nb is None:
+                    r.undecided.append('%s: untagged variants %s / %s are not both struct-like; whether their serialized forms can be told apart is not decided' % (short, va_, vb_))
+                elif na <= nb:
+                    r.violate('%s|untagged|%s-swallows-%s' % (short, va_, vb_), '%s is #[serde(untagged)]: a serialized %s (fields %s) is accepted by the earlier variant %s (fields %s, unknown '
+                              'fields ignored) and restored as a different kind of state' % (short, vb_, sorted(nb), va_, sorted(na)), adt['file'], adt['line'])
+    # wire-name collisions introduced by rename
+    if len(variants) > 1:
+        seen = {}
+        for v in variants:
+            nm = v['name']
+            for a in vattrs.get(v['name'], []):
+                mm = re.search(r'rename\s*=\s*"([^"]*)"', a)
+                if mm:
+                    nm = mm.group(1)
+            if nm in seen:
+                r.violate('%s|variant-names-collide|%s' % (short, nm), 'variants %s and %s of %s are both serialized as "%s"' % (seen[nm], v['name'], short, nm), adt['file'], adt['line'])
+            seen[nm] = v['name']
+
+
 def s17_serde_coverage(ctx):
     f = ctx.facts('default')
     m = Model(f)
@@ -96,6 +141,7 @@ def s17_serde_coverage(ctx):
                             r.violate('%s|%s|serde(%s)' % (short, where, word), 'derived serde impl of %s carries #[serde(%s)] on %s: the '
                                       'serialized form is no longer field-complete / symmetric' % (short, part.strip(), where), adt['file'], adt['line'])
             scan('<type>', tattrs)
+            _untagged_ambiguity(f, r, adt, short, tattrs, vattrs)
             for vn, va in vattrs.items():
                 scan('variant ' + vn, va)
             for (vn, fn), fa in fattrs.items():
@@ -350,7 +396,109 @@ def _manual_clone_not_fieldwise(f, m, ci, adt):
                 return 'field `%s` is not set' % nm
             if not same_field(got[nm], nm):
                 return 'field `%s` is built from %s' % (nm, tree_str(got[nm])[:60])
-    return None if seen else 'no returning path'
+    if not seen:
+        return 'no returning path'
+    # an overridden clone_from must leave self equal to the source on every path: the whole value replaced by a clone of the source, or
+    # every field assigned from the same field of the source
+    cf = m.impl_fn_path(ci, 'clone_from')
+    if cf:
+        b2 = m.body_inlined(cf, prefer_mono=False)
+        if b2 is None:
+            return 'no body for clone_from()'
+
+        def from_source(t, nm, depth=0):
+            t = strip(t)
+            if depth > 4 or not isinstance(t, tuple) or not t:
+                return False
+            if nm is None and t[:2] == ('arg', 2):
+                return True
+            if nm is not None and t[0] == 'field' and t[2] == nm and strip(t[1])[:2] == ('arg', 2):
+                return True
+            if t[0] == 'call' and t[2] and (t[4].endswith('::clone') or t[4].endswith('::to_owned') or t[4].endswith('::into_boxed_slice')
+                                            or t[4].endswith('::to_vec') or t[4].endswith('::into')):
+                return from_source(t[2][0], nm, depth + 1)
+            return False
+        for pf in all_path_facts(b2):
+            if not pf.returns:
+                continue
+            done = set()
+            for pl, tree, line in pf.stores:
+                fp = self_field_of_place(pl)
+                if fp == [] and from_source(tree, None):
+                    done = set(names)
+                elif fp and len(fp) == 1 and from_source(tree, fp[0]):
+                    done.add(fp[0])
+            for blk, ctree, t in pf.calls:
+                # `self.f.clone_from(&source.f)` / `self.f.clone_from_slice(&source.f)` / copy_from_slice
+                if ctree[4].endswith('::clone_from') or ctree[4].endswith('::clone_from_slice') or ctree[4].endswith('::copy_from_slice'):
+                    def root_field(x, depth=0):
+                        """(argument number, field) of the self / source field an expression points into (Box / Vec derefs, slices seen through)"""
+                        x = strip(x)
+                        while depth < 12 and isinstance(x, tuple) and x:
+                            depth += 1
+                            if x[0] == 'cast':
+                                x = strip(x[2])
+                            elif x[0] == 'call' and x[2] and x[4].rsplit('::', 1)[-1] in ('deref', 'deref_mut', 'as_ref', 'as_mut', 'index', 'index_mut', 'as_slice', 'as_mut_slice', 'borrow', 'borrow_mut'):
+                                x = strip(x[2][0])
+                            elif x[0] == 'field':
+                                base = strip(x[1])
+                                if isinstance(base, tuple) and base[:1] == ('arg',) and base[1] in (1, 2):
+                                    return base[1], x[2]
+                                x = base
+                            else:
+                                return None
+                        return None
+                    if len(ctree[2]) == 2:
+                        r0, r1 = root_field(ctree[2][0]), root_field(ctree[2][1])
+                        if r0 and r1 and r0[0] == 1 and r1[0] == 2 and r0[1] == r1[1]:
+                            done.add(r0[1])
+            # a field the path has tested equal to the source's needs no copy
+            for d, vals, blk, allv in pf.decisions:
+                if isinstance(d, tuple) and d and d[0] == 'bin' and d[1] in ('Eq', 'Ne'):
+                    is_true = not (vals != 'otherwise' and 0 in vals)
+                    if (d[1] == 'Eq') == is_true:
+                        x, y = strip(d[2]), strip(d[3])
+                        for p_, q_ in ((x, y), (y, x)):
+                            if p_[0] == 'field' and q_[0] == 'field' and p_[2] == q_[2] and strip(p_[1])[:2] == ('arg', 1) and strip(q_[1])[:2] == ('arg', 2):
+                                done.add(p_[2])
+            if adt['path'] == 'core::window::Window':
+                # the last-slot field is a function of the size in every window (S03 / A04): equal sizes give equal last slots
+                import wroles
+                wr = wroles.window_roles(f)
+                if wr.size in done:
+                    done.add(wr.last)
+            missing = [nm for nm in names if nm not in done]
+            if missing:
+                return 'clone_from() has a path that does not take field(s) %s from the source: the target is then not a copy of the source' % ', '.join('`%s`' % x for x in missing)
+    return None
+
+
+def s10c_clone_is_copy(ctx, only_prefix=None, rule_id='S10c'):
+    """Clone / clone_from of the given types produce a field-by-field copy (derived, or hand-written and checked)."""
+    f = ctx.facts('default')
+    m = Model(f)
+    r = RuleResult(rule_id, 'Clone of %s: derived, or hand-written with clone() returning a literal whose every field is the clone of the same field of self '
+                            'and clone_from() taking every field from the source on every path' % (only_prefix or 'every crate type'))
+    n = 0
+    for i in f.impls:
+        if i['trait'] != 'std::clone::Clone' or i['self_tyj']['t'] != 'adt' or i['self_tyj']['def'] not in f.adts:
+            continue
+        p = i['self_tyj']['def']
+        if only_prefix and not p.startswith(only_prefix):
+            continue
+        n += 1
+        short = p.rsplit('::', 1)[-1]
+        r.inst(short + '|Clone', not i['derived'])
+        if not i['derived']:
+            why_not = _manual_clone_not_fieldwise(f, m, i, f.adts[p])
+            if why_not:
+                r.violate(short + '|manual-Clone', '%s implements Clone by hand and the copy is not field-wise: %s' % (short, why_not), i['file'], i['line'])
+            else:
+                r.sample({'type': short, 'Clone': 'hand-written, field-wise'})
+        elif len(r.samples) < 4:
+            r.sample({'type': short, 'Clone': 'derived'})
+    r.floor('Clone impls examined', 1, n)
+    return r
 
 
 def s10_state_purity(ctx):
